@@ -462,6 +462,9 @@ class OscBundle(object):
             while self._dgram[index:]:
                 # Get the sub content size.
                 content_size, index = get_int(self._dgram, index)
+                if content_size < 0 or content_size > len(self._dgram) - index:
+                    raise OscBundleParseError(
+                        f'Invalid bundle element size: {content_size}')
                 # Get the datagram for the sub content.
                 content_dgram = self._dgram[index:index + content_size]
                 # Increment our position index up to the next possible content.
